@@ -55,7 +55,20 @@ unsigned gh_n_notify;                                         /* condition_varia
 #endif
 
 /* std::condition_variable (external): notify_all wakes the worker; counted.  Construction / destruction: no effect here. */
-void _ZNSt18condition_variable10notify_allEv(struct S_class_std__condition_variable *cv) { gh_n_notify++; }
+/* Wait/notify handshake (property: "no ... hang", "sleeps still pending when the scheduler is destroyed are cancelled rather than left hanging",
+ * in thread / thread-pool / start(awaitable) mode).  The worker tests its wake-up conditions under _mx and releases _mx only inside wait_until
+ * (unit worker_step).  A notifier whose state change is NOT made under _mx (the stop flag: std::stop_source::request_stop() sets it and then runs the
+ * callbacks on the requesting thread) must therefore pass through _mx between the state change and notify_all(): otherwise the change may fall between
+ * the worker's test and its wait, the notification finds nobody waiting, and the worker sleeps until the next deadline - for ever when nothing is
+ * scheduled.  Checked in the units on the worker's stop-callback lambda (worker_stop_cb, worker_stop_cb_pool). */
+#ifdef CV_HAS_wk_stop_cb_U
+unsigned gh_n_lock_at_change;                                 /* number of lock operations of this thread when the state change (stop flag set) happened */
+#define CV_NOTIFY_HANDSHAKE(cv) __CPROVER_assert(gh_n_lock > gh_n_lock_at_change && gh_sched_mx != 0, \
+  "C12 wait/notify handshake: the stop flag is set outside _mx, so the stop callback must pass through _mx before notify_all() (a worker between its stop_requested() test under _mx and wait_until otherwise misses the wake-up: ~scheduler() / start(awaitable) hang)")
+#else
+#define CV_NOTIFY_HANDSHAKE(cv)
+#endif
+void _ZNSt18condition_variable10notify_allEv(struct S_class_std__condition_variable *cv) { CV_NOTIFY_HANDSHAKE(cv); gh_n_notify++; }
 void _ZNSt18condition_variableC1Ev(struct S_class_std__condition_variable *cv) { }
 void _ZNSt18condition_variableD1Ev(struct S_class_std__condition_variable *cv) { }
 /* a suspend point that is destroyed while it still holds coroutines resumes them on the spot (C05/C06); counted */
@@ -251,9 +264,16 @@ __CPROVER_ensures(gh_fw_tp == (cv_s64)((cv_i64)gh_clock + (cv_i64)gh_cast_out)) 
 ;
 #endif
 
-/* ------------------------------------------------------------------ ~scheduler(): a started worker is stopped and joined first; then every pending sleep is cancelled */
+/* ------------------------------------------------------------------ ~scheduler(): a started worker is stopped and joined first; then every pending sleep is cancelled
+ * Forwarder.  request_stop() and future<void>::wait() are abstract callees that only record their invocation; that wait() RETURNS - i.e. that the worker
+ * terminates once its stop is requested - is not assumed silently any more: it is the conclusion of the wait/notify handshake whose two halves are
+ * machine-checked on the real code in the units worker_stop_cb* (the stop callback passes through _mx before notify_all) and worker_step* (the worker tests
+ * the flag and enters the wait within one critical section of _mx, re-tests after every wake-up, leaves its loop on a set flag and completes - resolving _fut -
+ * without holding _mx); see specs/C12/wk_spec.h.  What this unit owes to that argument is checked in the stubs: the stop is requested BEFORE the join, on
+ * the stop source / future of the SAME GlobState the worker was started with, and neither call is made with _mx held (request_stop() runs the worker's stop
+ * callback on this thread, which needs _mx; the worker needs _mx to leave its wait). */
 #ifdef CV_HAS_sch_dtor_U
-cv_i1 gh_engaged; unsigned gh_seq, gh_stop_at, gh_wait_at, gh_vecd_at, gh_optd_at;
+cv_i1 gh_engaged; unsigned gh_seq, gh_stop_at, gh_wait_at, gh_vecd_at, gh_optd_at; void *gh_stop_obj, *gh_wait_obj;
 #ifdef CV_HAS_opt_has_value
 cv_i1 opt_has_value(OPTGS *o) { return gh_engaged; }
 #endif
@@ -264,17 +284,23 @@ GLOBST *opt_arrow(OPTGS *o) { __CPROVER_assert(gh_engaged, "std::optional::opera
 void opt_dtor(OPTGS *o) { gh_optd_at = ++gh_seq; }
 #endif
 #ifdef CV_HAS_ss_request_stop
-cv_i1 ss_request_stop(STOPSRC *s) { gh_stop_at = ++gh_seq; return 1; }
+cv_i1 ss_request_stop(STOPSRC *s) {
+  __CPROVER_assert(SCH_UNLOCKED, "no hang: ~scheduler calls request_stop() without holding _mx (it runs the worker's stop callback on this thread, which passes through _mx)");
+  gh_stop_at = ++gh_seq; gh_stop_obj = (void *)s; return 1; }
 #endif
 #ifdef CV_HAS_fut_wait
-void fut_wait(FUT *f) { gh_wait_at = ++gh_seq; }
+void fut_wait(FUT *f) {
+  __CPROVER_assert(gh_stop_at != 0, "no hang: ~scheduler joins the worker only after its stop was requested");
+  __CPROVER_assert(SCH_UNLOCKED, "no hang: ~scheduler joins the worker without holding _mx (the worker needs _mx to leave its wait and finish)");
+  gh_wait_at = ++gh_seq; gh_wait_obj = (void *)f; }
 #endif
 void sch_dtor(SCHED *this_)
 __CPROVER_requires(cv_exc_pending == 0 && __CPROVER_is_fresh(this_, sizeof(*this_)) && gh_sched_mx == (void *)&(this_)->_mx && SCH_UNLOCKED)
-__CPROVER_requires(VEC_WF && TRK_PIN && gh_engaged <= 1 && gh_seq == 0 && gh_stop_at == 0 && gh_wait_at == 0 && gh_optd_at == 0 && gh_vec_dtor == 0 && gh_W == gh_t_own)
-__CPROVER_assigns(MODEL_ASSIGNS, gh_seq, gh_stop_at, gh_wait_at, gh_optd_at, gh_vec_dtor)
+__CPROVER_requires(VEC_WF && TRK_PIN && gh_engaged <= 1 && gh_seq == 0 && gh_stop_at == 0 && gh_wait_at == 0 && gh_optd_at == 0 && gh_vec_dtor == 0 && gh_W == gh_t_own && gh_stop_obj == 0 && gh_wait_obj == 0)
+__CPROVER_assigns(MODEL_ASSIGNS, gh_seq, gh_stop_at, gh_wait_at, gh_optd_at, gh_vec_dtor, gh_stop_obj, gh_wait_obj)
 __CPROVER_ensures(cv_exc_pending == 0 && SCH_UNLOCKED)
 __CPROVER_ensures(gh_engaged ==> (gh_stop_at == 1 && gh_wait_at == 2))                                     /* worker: stop requested, then joined, before anything is torn down */
+__CPROVER_ensures(gh_engaged ==> (gh_stop_obj == (void *)&((GLOBST *)&this_->_glob_state)->_stp && gh_wait_obj == (void *)&((GLOBST *)&this_->_glob_state)->_fut))   /* ... on the stop source / future the worker was started with (start_in) */
 __CPROVER_ensures(!gh_engaged ==> (gh_stop_at == 0 && gh_wait_at == 0))
 __CPROVER_ensures(gh_vec_dtor == 1 && vec_n == 0)                                                          /* the vector is destroyed exactly once */
 __CPROVER_ensures(TRK_LIVE0 ==> (gh_W_dropped == __CPROVER_old(gh_W_dropped) + 1 && gh_W_val == __CPROVER_old(gh_W_val) && gh_W_exc == __CPROVER_old(gh_W_exc)))  /* every pending sleep is cancelled exactly once (dropped promise) */
